@@ -1,1 +1,7 @@
-import Hub.SDK.Math
+-- Root of the `Hub` library: everything the checks build.
+import Hub.Model.Run
+import Hub.Model.Monitors
+import Hub.Props.C01
+import Hub.Props.C13
+import Hub.Props.C16
+import Hub.Props.C17
